@@ -20,7 +20,11 @@ func init() {
 
 // c16History runs one random multi-node history without any corruption and
 // judges every delivered report.
-func c16History(c *evid.Ctx, seed int64) {
+func c16History(c *evid.Ctx, seed int64) { c16HistoryMode(c, seed, false) }
+
+// c16HistoryMode: blameOnly is used by C17, whose second sentence (a report blames in-flight
+// corruption only when the node really wrote something else) is about these same clean histories.
+func c16HistoryMode(c *evid.Ctx, seed int64, blameOnly bool) {
 	rng := rand.New(rand.NewSource(seed))
 	nn := 3 + rng.Intn(3)
 	var cl *vsim.Cluster
@@ -88,6 +92,14 @@ func c16History(c *evid.Ctx, seed int64) {
 				c.Count("checkpoints_judged", 1)
 				c.Distinct("contexts", ctx+fmt.Sprintf("|holds=%v", j.Holds))
 				replay := map[string]any{"seed": seed, "node": n.Name, "range": r.Range.String(), "events": tail(cl.Events, 40), "err": fmt.Sprint(r.Err)}
+				if blameOnly {
+					if j.Holds && j.Equal && j.Mismatch && j.InFlight {
+						c.Violation("C17:in-flight-blamed-wrongly:clean-history:"+role, fmt.Sprintf("node %s wrote exactly what leader %s checksummed for range %s, yet its report blames in-flight corruption: %v (context %s)", n.Name, j.CP.Leader, r.Range, r.Err, ctx), replay)
+					}
+					c.Count("clean_history_reports_checked_for_blame", 1)
+					fl[ni] = flags{}
+					continue
+				}
 				if j.Holds && j.Equal && j.Mismatch {
 					blame := "storage"
 					if j.InFlight {
